@@ -2,6 +2,7 @@ package props
 
 import (
 	"bytes"
+	"io"
 	"strings"
 
 	"github.com/wkhere/bcl"
@@ -67,15 +68,18 @@ func c07Compare(w, f c07Outcome) {
 
 // c07Script builds the reader script for a split mode at cut k:
 // 0 = two reads, 1 = two reads with a zero-byte read between them,
-// 2 = three reads (k, 1 byte, rest).
+// 2 = three reads (k, 1 byte, rest), 3 = two reads, the second with io.EOF.
 func c07Script(k, mode int) []symio.Step {
 	switch mode {
 	case 0:
 		return []symio.Step{{N: k}}
 	case 1:
 		return []symio.Step{{N: k}, {N: 0}}
-	default:
+	case 2:
 		return []symio.Step{{N: k}, {N: 1}}
+	default:
+		// the last read delivers its data together with io.EOF
+		return []symio.Step{{N: k}, {N: 1 << 20, Err: io.EOF}}
 	}
 }
 
@@ -93,7 +97,7 @@ func C07_Split1() {
 		cuts = len(src) - lo + 1
 	}
 	k := lo + verif.Choice("cut", cuts)
-	mode := verif.Choice("mode", 3)
+	mode := verif.Choice("mode", 4)
 	verif.Observe("cut", k)
 	w := c07Whole(src)
 	f := c07File(&symio.File{Data: src, Script: c07Script(k, mode), FileName: "file"})
